@@ -34,6 +34,33 @@ where
             drop(st);
         }));
     }
+    // C12 runs: the dirty-byte bound is looked at whenever the storage falls quiet between client
+    // operations, not only at the end of the session (an accounting error made by a write that raced
+    // with a sync is repaired by the next sync)
+    let monitor = if plan.property == "C12" && si == 0 && !plan.sessions[si].lazy_init {
+        let ctx3 = ctx.clone();
+        let st3 = storage.clone();
+        Some(tokio::task::spawn_local(async move {
+            loop {
+                tokio::time::sleep(Duration::from_millis(5)).await;
+                if !crate::oracle::settle(&ctx3).await {
+                    continue;
+                }
+                let restored = ctx3.history.borrow().iter().any(|h| h.session == si && matches!(h.kind, crate::plan::OpKind::TryRestore | crate::plan::OpKind::RestoreBg) && !matches!(h.result, OpResult::Err(_) | OpResult::Skipped));
+                if restored || ctx3.world.kill_flag.get() {
+                    break;
+                }
+                ctx3.world.probe("dirty_bound_checked_between_operations");
+                crate::oracle::check_dirty_bound(&ctx3, &st3).await;
+                if !ctx3.violations.borrow().is_empty() {
+                    break;
+                }
+            }
+            drop(st3);
+        }))
+    } else {
+        None
+    };
     drop(storage);
     let notify = world.kill_notify.clone();
     let all = async {
@@ -62,6 +89,10 @@ where
             }
         }
         _ => {}
+    }
+    if let Some(m) = monitor {
+        m.abort();
+        let _ = m.await;
     }
     if outcome.is_none() && world.kill_flag.get() {
         return Some(SessionOutcome::Killed);
